@@ -112,6 +112,11 @@ METHODS = {
     "keys": dict(ret="keys0", labelflow=True), "values": dict(ret="values0"), "items": dict(ret="items0"),
     "get": dict(ret="elem0"), "copy": dict(ret="shallow", labelflow=True), "fromkeys": dict(ret="fresh", cls="dict"),
     "from_iterable": dict(ret="shallow_flat"),
+    # set algebra: a new set whose elements come from the receiver (and the argument for union)
+    "intersection": dict(ret="shallow", cls="set", labelflow=True),
+    "difference": dict(ret="shallow", cls="set", labelflow=True),
+    "union": dict(ret="shallow", cls="set", labelflow=True),
+    "symmetric_difference": dict(ret="shallow", cls="set", labelflow=True),
     # mutate the receiver
     "append": dict(ret="fresh", mut=["recv"], store_args=True), "extend": dict(ret="fresh", mut=["recv"],
                                                                                 store_args="elems"),
